@@ -10,7 +10,7 @@ import numpy as np
 from hypothesis import strategies as st
 
 from vlib.runner import part, Fail, Skip
-from vlib import refsim as R, refops as O, refchem as RC, strategies as S, h_c08 as H
+from vlib import refsim as R, refops as O, refchem as RC, h_c08 as H
 
 PROPERTY = "C13"
 RULE = ("Hypothesis-generated molecules (H2 sto-3g/6-31g, H3, H4 chain/ring/generic, LiH, H2O; drawn bond scaling and atom "
@@ -24,7 +24,7 @@ RULE = ("Hypothesis-generated molecules (H2 sto-3g/6-31g, H3, H4 chain/ring/gene
         "shell, or (VQE) a non-zero parameter vector. Distinct = distinct canonical JSON of the case.")
 ASSUMPTIONS = ["numpy dense linear algebra", "PySCF AO integrals, SCF, FCI / CCSD / MP2 kernels are the solvers under the Tangelo wrappers; their energies are the reference the RDM contraction is compared with",
                "reference simulator and Pauli matrices in vlib/refsim.py, Fock-space ladder matrices in vlib/refops.py, integral transformation in vlib/refchem.py (self-tested)",
-               "CCSD energy identity is asserted only when the amplitude and lambda equations converged; tolerance 1e-6 (conv_tol 1e-9)",
+               "CCSD energy identity is asserted only when the amplitude and lambda equations converged; tolerance 1e-6 for CCSD and MP2 (SCF-based pipelines), 1e-7 for FCI and VQE",
                "MP2 RDMs are requested only where offered: closed-shell RHF and UHF without frozen orbitals; ROHF-MP2 dies inside PySCF and is counted as not offered",
                "2-RDM pair-exchange symmetry is not asserted (the property does not claim it)",
                "trace of the VQE 1-RDM is asserted only when the prepared state is an eigenstate of the particle number (variance < 1e-9)"]
@@ -33,7 +33,7 @@ SHARDS = {"quick": 4, "thorough": 16}
 TOL_E = 1e-7
 TOL_CC = 1e-6
 TOL_H = 1e-8
-SIG_PAD = "pad_rdms:mutates-input-2rdm"
+SIG_PAD = "pad_rdms:mutates-input-arrays"
 SIG_SPIN = "vqe-rdm:energy:scbk-active-spin"
 SIG_UHFSHAPE = "vqe-rdm-uhf:shape-unequal-alpha-beta"
 SIG_ZERO = "exception:ValueError@tangelo/toolboxes/qubit_mappings/mapping_transform.py:make_up_then_down"
@@ -162,7 +162,7 @@ def classical_cases(draw, solver):
     return {"mol": mol, "solver": solver}
 
 
-@part("classical", quick=64, thorough=2400)
+@part("classical", quick=96, thorough=2400)
 def classical(ctx):
     def body(case):
         from tangelo.algorithms.classical import FCISolver, CCSDSolver, MP2Solver
@@ -186,6 +186,8 @@ def classical(ctx):
                 return nontrivial, labels | {"mp2-frozen-refused-as-documented"}
             raise Fail("MP2Solver.get_rdm with frozen orbitals did not raise the documented RuntimeError", sig="mp2:frozen-not-refused")
         g1, g2 = solver.get_rdm()
+        if case["solver"] == "MP2":
+            tol = TOL_CC      # the MP2 matrices reproduce E(MP2) up to terms that vanish with the SCF residual (SCF-based pipeline: 1e-6)
         if case["solver"] == "CCSD":
             cc = solver.solver.cc_fragment if hasattr(solver, "solver") else solver.cc_fragment
             tol = TOL_CC
@@ -218,6 +220,7 @@ def classical(ctx):
         else:
             intact = pad_and_check(mol, mcase, g1, g2, e, big_tol, what)
             labels.add("padded")
+            labels.add("padded-" + mol_kind(mcase))
             if not intact:
                 raise Fail(f"pad_rdms_with_frozen_orbitals_{'un' if mol.uhf else ''}restricted changed the arrays passed in "
                            f"({what} matrices, frozen {mcase['frozen']})", sig=SIG_PAD)
@@ -272,7 +275,7 @@ def is_zero_ucc(case):
     return case["ansatz"] in ("UCCSD", "UpCCGSD") and case["utd"] and zero
 
 
-@part("vqe", quick=36, thorough=1200)
+@part("vqe", quick=60, thorough=1200)
 def vqe(ctx):
     def body(case):
         from tangelo.toolboxes.molecular_computation.rdms import energy_from_rdms
@@ -300,9 +303,15 @@ def vqe(ctx):
         if asym_spin:
             labels.add("active-spin!=spin")
         # particle-number variance of the prepared state under the solver's encoding
+        # (number operator over the spin-orbitals that exist: with unequal alpha/beta active spaces the register holds
+        # 2*max(n_alpha_orbitals, n_beta_orbitals) modes, and an ansatz may move electrons into the surplus modes, which
+        # no density matrix element refers to)
+        n_orb_a, n_orb_b = mol.n_active_mos if mol.uhf else (mol.n_active_mos,) * 2
         fN = FermionOperator()
-        for t, c in H.sym_fermion_terms("N", mol.n_active_sos // 2).items():
-            fN += FermionOperator(t, c)
+        for i in range(n_orb_a):
+            fN += FermionOperator(((2 * i, 1), (2 * i, 0)), 1.0)
+        for i in range(n_orb_b):
+            fN += FermionOperator(((2 * i + 1, 1), (2 * i + 1, 0)), 1.0)
         qN = fermion_to_qubit_mapping(fN, case["mapping"], n_spinorbitals=mol.n_active_sos, n_electrons=mol.n_active_electrons,
                                       up_then_down=case["utd"], spin=mol.active_spin)
         MN = R.qop_matrix(qN.terms, n)
@@ -403,6 +412,10 @@ def vqe(ctx):
             raise Fail(f"pad_rdms_with_frozen_orbitals_{'un' if mol.uhf else ''}restricted changed the arrays passed in "
                        f"(VQE matrices, frozen {mcase['frozen']})", sig=SIG_PAD)
         nontrivial = bool(mcase["frozen"]) or mcase["spin"] != 0 or any(t != 0.0 for t in theta)
+        if any(t != 0.0 for t in theta):
+            labels.add("theta-nonzero")
+        if "padded" in labels:
+            labels.add("padded-" + mol_kind(mcase))
         if H.is_basis_state(psi):
             labels.add("basis-state")
         return nontrivial, labels
